@@ -2,6 +2,7 @@
 from __future__ import annotations
 
 import ast
+import re
 from typing import Any, Callable, Dict, List, Optional, Set, Tuple
 
 from ..core import AnalysisError, Report
@@ -18,7 +19,8 @@ PARSER = 'flipjump/assembler/fj_parser.py'
 WRITER = 'flipjump/fjm/fjm_writer.py'
 FUNCS = 'flipjump/utils/functions.py'
 CLASSES = 'flipjump/utils/classes.py'
-MODULES = [ASM, PRE, OPS, EXPR, PARSER, WRITER, FUNCS, CLASSES]
+STATS = 'flipjump/interpreter/debugging/macro_usage_graph.py'          # the preprocessor calls it when show_statistics is on
+MODULES = [ASM, PRE, OPS, EXPR, PARSER, WRITER, FUNCS, CLASSES, STATS]
 
 
 def all_functions(repo: Repo, rel: str) -> List[Tuple[str, ast.FunctionDef]]:
@@ -122,6 +124,13 @@ ALLOW: Dict[str, str] = {
     'FJLexer.NUMBER:int(t.value)': 'a one-character NUMBER token is a decimal digit',
     'save_debugging_labels:lzma.compress(...)': 'compression of in-memory bytes with the fixed, valid filter chain',
     '_pow:int(base ** exp)': 'int() of an int',
+    # the optional macro-usage statistics (show_statistics): keys are the label prefixes the preprocessor itself registered
+    '_prepare_first_and_second_level_significant_macros:macro_code_size[parent]':
+        'a two-part key is registered by an expansion at depth 2, whose parent expansion (depth 1) registers its own prefix when it ends - '
+        'before finish() can run; a failed expansion raises and never reaches the statistics',
+    '_choose_most_significant_macros:second_level[k]':
+        'second_level is the defaultdict built by _prepare_first_and_second_level_significant_macros (its only caller passes that object): a '
+        'missing key reads as the empty dict',
 }
 
 
@@ -187,6 +196,12 @@ def discharge(repo: Repo, rel: str, q: str, fn: ast.FunctionDef, s: Site, sub: C
                 break
         if gd.get(f'{key} in {base}') is True or gd.get(f'{key} not in {base}') is False:
             return f'MEMBER: `{key} in {base}` guards the lookup'
+        if isinstance(node.value, ast.Name):          # type: ignore[attr-defined]
+            defs_ = [d_.value for d_ in walk_no_nested(fn) if isinstance(d_, (ast.Assign, ast.AnnAssign)) and d_.value is not None and any(
+                isinstance(t_, ast.Name) and t_.id == base for t_ in (d_.targets if isinstance(d_, ast.Assign) else [d_.target]))]
+            if defs_ and all(isinstance(v_, ast.Call) and dotted(v_.func).split('.')[-1] == 'defaultdict' and v_.args for v_ in defs_) \
+                    and base not in param_names(fn):
+                return f'DEFAULTDICT: the local {base} is a collections.defaultdict'
         if base.startswith('p.') and isinstance(node.slice, ast.Constant):      # type: ignore[attr-defined]
             return 'ALLOW: sly production values are the tuples built by the grammar actions'
         if base == 'op_string_to_function':
@@ -218,6 +233,19 @@ def discharge(repo: Repo, rel: str, q: str, fn: ast.FunctionDef, s: Site, sub: C
         if isinstance(op, (ast.Div, ast.FloorDiv, ast.Mod)):
             if isinstance(node.left, ast.Name) and node.left.id in ('STL_PATH',):       # type: ignore[attr-defined]
                 return 'CONST: pathlib division'
+            rt_ = norm(right)
+            if gd.get(f'{rt_} > 0') is True or gd.get(f'{rt_} != 0') is True or gd.get(f'{rt_} == 0') is False:
+                return f'GUARD: `{rt_}` is known non-zero here'
+            # `d == 0 or .. x / d ..`: the later operand of an `or` is evaluated only when the earlier one is false
+            child_: ast.AST = node
+            for a_ in ancestors(node):
+                if isinstance(a_, ast.BoolOp) and isinstance(a_.op, ast.Or):
+                    k_ = next((i_ for i_, v_ in enumerate(a_.values) if v_ is child_), None)
+                    if k_ is not None and any(cn(v_) == cn(ast.parse(f'{rt_} == 0', mode='eval').body) for v_ in a_.values[:k_]):
+                        return f'GUARD: the division is the later operand of `{rt_} == 0 or ..`'
+                if isinstance(a_, (ast.stmt,)):
+                    break
+                child_ = a_
             if _const_like(right, consts) and not (isinstance(right, ast.Constant) and right.value == 0):
                 return f'CONST: divisor {norm(right)} is a validated width / literal'
             if q == 'PreprocessorData.align_current_address' and norm(right) == 'ops_alignment' and ctx['pad_alignment_guarded']:
@@ -610,22 +638,88 @@ SAFE_INT_FORMATTERS = {'hex', 'bin', 'oct', 'int_to_str', 'len', 'type', 'repr_s
 
 
 def rule_int_format(rep: Report, repo: Repo, clo: List[Tuple[str, str, ast.FunctionDef]]) -> None:
-    rep.rule('C14.INT-FORMAT', 'CPython refuses to convert an integer above 4300 digits to a decimal string (ValueError) and constants are '
-             'unbounded, so on the assemble() call closure no value that comes from evaluating a user expression - the result of '
-             'exact_eval / calculate_* / get_flip.. , an element of the word list handed to the writer, the operands of `**`, an Expr\'s '
-             'int value - is formatted in decimal (f-string placeholder, str(), repr(), %d) unless through hex()/bin()/oct() or the '
-             'length-safe helper; the error path is where such values are printed, so a ValueError there is the generic failure', 4)
+    rep.rule('C14.INT-FORMAT', 'CPython refuses to convert an integer above 4300 digits to a decimal string (ValueError), to encode it as json '
+             '(same conversion) or to multiply it with a float (OverflowError), and constants are unbounded - so on the assemble() call closure '
+             'no value that comes from evaluating a user expression (the result of exact_eval / calculate_* / get_flip.., of a closure function '
+             'that returns such a value, an element of the word list handed to the writer, the operands of `**`, an Expr\'s int value, an '
+             'attribute such a value was stored in) reaches a decimal formatting (f-string placeholder, str(), repr(), %d), json.dump(s) or '
+             'float arithmetic, unless through hex()/bin()/oct() / the length-safe helper, or after a range refusal that bounds it from both '
+             'sides; the error path is where such values are printed, so an exception there is the generic failure', 4)
     n_sites = 0
     extra = [(EXPR, '_pow', repo.func(EXPR, '_pow'))] if repo.has_func(EXPR, '_pow') and not any(q == '_pow' for _, q, _ in clo) else []
     funcs = list(clo) + extra                     # _pow is reached through the operator table, not by name
-    # parameters that ARE such values: the two known entry points, plus (fixpoint over the closure) every parameter that
-    # receives a tainted argument at some call site - a range check like assert_address_in_memory sees exactly the unbounded values
     seeds: Dict[str, Set[str]] = {q: set() for _, q, _ in funcs}
     by_short: Dict[str, List[Tuple[str, ast.FunctionDef]]] = {}
     for _, q, fn in funcs:
         by_short.setdefault(q.split('.')[-1], []).append((q, fn))
+    producers: Set[str] = set(UNBOUNDED_INT_PRODUCERS)          # grows: closure functions that return such a value
+    fields: Set[str] = set()                                      # attribute names such a value was stored in (field-based, any object)
+    expr_fields: Set[str] = set()                                 # attribute names that keep an Expr (`x.f = Expr(..)` / an Expr parameter)
+    for _rel, _q, fn0 in funcs:
+        expr_params = {a.arg for a in fn0.args.args if a.annotation is not None and norm(a.annotation) == 'Expr'}
+        for n0 in walk_no_nested(fn0):
+            if isinstance(n0, ast.Assign) and len(n0.targets) == 1 and isinstance(n0.targets[0], ast.Attribute) and (
+                    (isinstance(n0.value, ast.Call) and dotted(n0.value.func) == 'Expr') or (isinstance(n0.value, ast.Name) and n0.value.id in expr_params)):
+                expr_fields.add(n0.targets[0].attr)
+    BIG = 10 ** 5000
+    from ..excflow import refusal_tests
+    from ..pyfacts import expand_private_calls, eval_int_expr
 
-    def local_taint(q: str, fn: ast.FunctionDef) -> Set[str]:
+    def bounded_in(rel_: str, q_: str, fn_: ast.FunctionDef, text: str) -> bool:
+        """some refusal of fn_ (private helpers of its class read through) fires for `text` = +10^5000 and one for -10^5000: whatever
+        goes on from here is a bounded value"""
+        cls_ = q_.split('.')[0] if '.' in q_ else None
+        try:
+            fx = expand_private_calls(repo, rel_, fn_, cls_)
+        except AnalysisError:
+            fx = fn_
+        hit = {1: False, -1: False}
+        for _r, t in refusal_tests(fx):
+            names = {norm(x) for x in ast.walk(t) if isinstance(x, (ast.Name, ast.Attribute))}
+            if text not in names:
+                continue
+            for sign in (1, -1):
+                env = {nm: (64 if nm.endswith('memory_width') or nm in ('w', 'memory_width') else 128 if nm.endswith('op_size') else 0) for nm in names}
+                env[text] = sign * BIG
+                try:
+                    if bool(eval_int_expr(t, env)):
+                        hit[sign] = True
+                except (AnalysisError, ArithmeticError, ValueError, MemoryError):
+                    pass                         # the test itself cannot be folded with such a value (a shift by it, ..): not a bound
+        return hit[1] and hit[-1]
+
+    def hot_(e: ast.AST, t: Set[str]) -> bool:
+        # the integer itself flows: names, attributes it was stored in, arithmetic, elements, producer calls - not a string built from it
+        if isinstance(e, ast.Name):
+            return e.id in t
+        if isinstance(e, ast.Attribute):
+            return e.attr in fields
+        if isinstance(e, ast.Call):
+            d = dotted(e.func)
+            if d in SAFE_INT_FORMATTERS:
+                return False
+            if d in ('int', 'abs', 'min', 'max', 'dict', 'list', 'tuple', 'sum', 'next', 'sorted', 'reversed', 'set', 'frozenset', 'iter') and any(hot_(a, t) for a in e.args):
+                return True
+            if d == 'int' and len(e.args) == 1 and isinstance(e.args[0], ast.Attribute) and e.args[0].attr in expr_fields:
+                return True                      # the int value of an Expr the object keeps: whatever the user wrote
+            return d.split('.')[-1] in producers
+        if isinstance(e, ast.BinOp):
+            return hot_(e.left, t) or hot_(e.right, t)
+        if isinstance(e, ast.UnaryOp):
+            return hot_(e.operand, t)
+        if isinstance(e, ast.IfExp):
+            return hot_(e.body, t) or hot_(e.orelse, t)
+        if isinstance(e, (ast.Subscript, ast.Starred)):
+            return hot_(e.value, t)
+        if isinstance(e, (ast.Tuple, ast.List)):
+            return any(hot_(x, t) for x in e.elts)
+        if isinstance(e, (ast.GeneratorExp, ast.ListComp, ast.SetComp)):
+            # elements drawn from a container of such values (the loop variable itself or arithmetic on it)
+            its = {x.id for g in e.generators if hot_(g.iter, t) and not isinstance(g.iter, ast.Call) for x in ast.walk(g.target) if isinstance(x, ast.Name)}
+            return hot_(e.elt, t | its)
+        return False
+
+    def local_taint(rel_: str, q: str, fn: ast.FunctionDef) -> Set[str]:
         tainted: Set[str] = set(seeds[q])
         if q == '_pow':
             tainted |= {a.arg for a in fn.args.args}
@@ -635,28 +729,75 @@ def rule_int_format(rep: Report, repo: Repo, clo: List[Tuple[str, str, ast.Funct
         while changed:
             changed = False
             for n in walk_no_nested(fn):
-                tgt: List[str] = []
+                tgts: List[str] = []
                 val: Optional[ast.AST] = None
                 if isinstance(n, ast.Assign) and len(n.targets) == 1 and isinstance(n.targets[0], ast.Name):
-                    tgt, val = [n.targets[0].id], n.value
+                    tgts, val = [n.targets[0].id], n.value
+                elif isinstance(n, ast.Assign) and len(n.targets) == 1 and isinstance(n.targets[0], ast.Tuple) and isinstance(n.value, ast.Call):
+                    tgts, val = [x.id for x in n.targets[0].elts if isinstance(x, ast.Name)], n.value      # `a, b = producer()`: either may be it
                 elif isinstance(n, ast.AnnAssign) and isinstance(n.target, ast.Name) and n.value is not None:
-                    tgt, val = [n.target.id], n.value
+                    tgts, val = [n.target.id], n.value
+                elif isinstance(n, ast.AugAssign) and isinstance(n.target, ast.Name):
+                    tgts, val = [n.target.id], n.value
                 elif isinstance(n, (ast.For, ast.comprehension)) and isinstance(n.target, ast.Name):
-                    tgt, val = [n.target.id], n.iter
-                if not tgt or val is None:
+                    tgts, val = [n.target.id], n.iter
+                if not tgts or val is None:
                     continue
-                src = any((isinstance(x, ast.Call) and dotted(x.func).split('.')[-1] in UNBOUNDED_INT_PRODUCERS) or
-                          (isinstance(x, ast.Name) and x.id in tainted) for x in ast.walk(val))
-                if isinstance(val, ast.Call) and dotted(val.func) in SAFE_INT_FORMATTERS:
-                    src = False
-                if src and tgt[0] not in tainted:
-                    tainted.add(tgt[0])
-                    changed = True
+                if isinstance(n, (ast.For, ast.comprehension)) and isinstance(val, ast.Call):
+                    continue                      # range(n) / enumerate(..): the index counts iterations, it is not the value
+                if hot_(val, tainted):
+                    for tg in tgts:
+                        if tg not in tainted and not bounded_in(rel_, q, fn, tg):
+                            tainted.add(tg)
+                            changed = True
         return tainted
-    for _ in range(6):
+    rel_of = {q: rel for rel, q, _ in funcs}
+    for _ in range(8):
         grew = False
-        for _, q, fn in funcs:
-            t = local_taint(q, fn)
+        for rel, q, fn in funcs:
+            t = local_taint(rel, q, fn)
+            # stores into attributes (also `x.f += v`, `x.f[k] = v`): the field holds such a value from now on - unless this function
+            # refuses it outside a range right here
+            for n in walk_no_nested(fn):
+                tg_, val_ = None, None
+                if isinstance(n, ast.Assign) and len(n.targets) == 1:
+                    tg_, val_ = n.targets[0], n.value
+                elif isinstance(n, ast.AugAssign):
+                    tg_, val_ = n.target, n.value
+                if tg_ is None or val_ is None:
+                    continue
+                base_ = tg_.value if isinstance(tg_, ast.Subscript) else tg_
+                if isinstance(base_, ast.Attribute) and hot_(val_, t) and base_.attr not in fields:
+                    if isinstance(tg_, ast.Attribute) and bounded_in(rel, q, fn, norm(tg_)):
+                        continue
+                    # a private "do the step" helper: the refusal may stand in its callers, right after the call - every caller that
+                    # hands it such a value has to bound the attribute itself
+                    short_h = q.split('.')[-1]
+                    if short_h.startswith('_') and not short_h.startswith('__') and isinstance(tg_, ast.Attribute) and norm(tg_.value) == 'self':
+                        sites_ = [(r2, q2, f2, c2) for r2, q2, f2 in funcs for c2 in calls(f2)
+                                  if isinstance(c2.func, ast.Attribute) and c2.func.attr == short_h and f2 is not fn]
+                        def site_ok(r2: str, q2: str, f2: ast.FunctionDef, c2: ast.Call) -> bool:
+                            t2 = local_taint(r2, q2, f2)
+                            if not any(hot_(a2, t2) for a2 in c2.args):
+                                return True
+                            return bounded_in(r2, q2, f2, f'{norm(c2.func.value)}.{tg_.attr}')          # type: ignore[attr-defined]
+                        if sites_ and all(site_ok(*x) for x in sites_):
+                            continue
+                    fields.add(base_.attr)
+                    grew = True
+            # a function that returns such a value is a producer of it
+            short_q = q.split('.')[-1]
+            ret_ann = norm(fn.returns) if fn.returns is not None else ''
+            if short_q not in producers and short_q not in SAFE_INT_FORMATTERS:
+                for r in walk_no_nested(fn):
+                    # typed as an int - or handing out, as it is, an attribute such values were stored in / what another producer returned
+                    as_is = isinstance(r, ast.Return) and r.value is not None and all(isinstance(x, ast.Attribute) or (isinstance(x, ast.Call) and dotted(x.func).split('.')[-1] in producers)
+                                                        for x in (r.value.elts if isinstance(r.value, ast.Tuple) else [r.value]))
+                    if isinstance(r, ast.Return) and r.value is not None and (re.search(r'\bint\b', ret_ann) or as_is) and hot_(r.value, t) and not (
+                            isinstance(r.value, ast.Name) and bounded_in(rel, q, fn, r.value.id)):
+                        producers.add(short_q)
+                        grew = True
+                        break
             for c in calls(fn):
                 short = dotted(c.func).split('.')[-1]
                 for q2, fn2 in by_short.get(short, []):
@@ -668,25 +809,8 @@ def rule_int_format(rep: Report, repo: Repo, clo: List[Tuple[str, str, ast.Funct
                             continue
                         if isinstance(a, ast.Call) and dotted(a.func) in SAFE_INT_FORMATTERS | {'len'}:
                             continue
-                        def hot_(e: ast.AST) -> bool:
-                            # the integer itself flows: names, arithmetic, elements, producer calls - not a string built from it
-                            if isinstance(e, ast.Name):
-                                return e.id in t
-                            if isinstance(e, ast.Call):
-                                return dotted(e.func).split('.')[-1] in UNBOUNDED_INT_PRODUCERS
-                            if isinstance(e, ast.BinOp):
-                                return hot_(e.left) or hot_(e.right)
-                            if isinstance(e, ast.UnaryOp):
-                                return hot_(e.operand)
-                            if isinstance(e, ast.IfExp):
-                                return hot_(e.body) or hot_(e.orelse)
-                            if isinstance(e, (ast.Subscript, ast.Starred)):
-                                return hot_(e.value)
-                            if isinstance(e, (ast.Tuple, ast.List)):
-                                return any(hot_(x) for x in e.elts)
-                            return False
-                        hot = hot_(a)
-                        if hot and params[i_] not in seeds[q2]:
+                        ann_ = next((norm(x.annotation) for x in fn2.args.args if x.arg == params[i_] and x.annotation is not None), 'int')
+                        if hot_(a, t) and params[i_] not in seeds[q2] and re.search(r'\bint\b', ann_):
                             seeds[q2].add(params[i_])
                             grew = True
         if not grew:
@@ -694,38 +818,8 @@ def rule_int_format(rep: Report, repo: Repo, clo: List[Tuple[str, str, ast.Funct
     for rel, q, fn in funcs:
         if q == 'int_to_str':
             continue                              # the length-safe helper itself (its fallback is checked below)
-        tainted: Set[str] = set(seeds[q])
-        # parameters that ARE such values
-        if q == '_pow':
-            tainted |= {a.arg for a in fn.args.args}
-        if q == 'Writer.add_data':
-            tainted |= {'data'}
-        changed = True
-        while changed:
-            changed = False
-            for n in walk_no_nested(fn):
-                tgt: List[str] = []
-                val: Optional[ast.AST] = None
-                if isinstance(n, ast.Assign) and len(n.targets) == 1 and isinstance(n.targets[0], ast.Name):
-                    tgt, val = [n.targets[0].id], n.value
-                elif isinstance(n, ast.AnnAssign) and isinstance(n.target, ast.Name) and n.value is not None:
-                    tgt, val = [n.target.id], n.value
-                elif isinstance(n, (ast.For, ast.comprehension)) and isinstance(n.target, ast.Name):
-                    tgt, val = [n.target.id], n.iter
-                if not tgt or val is None:
-                    continue
-                src = False
-                for x in ast.walk(val):
-                    if isinstance(x, ast.Call) and dotted(x.func).split('.')[-1] in UNBOUNDED_INT_PRODUCERS:
-                        src = True
-                    if isinstance(x, ast.Name) and x.id in tainted:
-                        src = True
-                # a value wrapped by a safe formatter or a length is no longer the integer itself
-                if isinstance(val, ast.Call) and dotted(val.func) in SAFE_INT_FORMATTERS:
-                    src = False
-                if src and tgt[0] not in tainted:
-                    tainted.add(tgt[0])
-                    changed = True
+        tainted = local_taint(rel, q, fn)
+        floats = {a.arg for a in fn.args.args + fn.args.kwonlyargs if a.annotation is not None and norm(a.annotation) == 'float'}
         sinks: List[Tuple[ast.AST, str]] = []
         for n in walk_no_nested(fn):
             if isinstance(n, ast.FormattedValue):
@@ -735,24 +829,39 @@ def rule_int_format(rep: Report, repo: Repo, clo: List[Tuple[str, str, ast.Funct
                 sinks.append((n.value, 'f-string'))
             elif isinstance(n, ast.Call) and dotted(n.func) in ('str', 'repr') and len(n.args) == 1:
                 sinks.append((n.args[0], dotted(n.func) + '()'))
+            elif isinstance(n, ast.Call) and dotted(n.func) in ('json.dumps', 'json.dump') and n.args:
+                sinks.append((n.args[0], dotted(n.func) + '()'))
+            elif isinstance(n, ast.Call) and dotted(n.func) == 'float' and len(n.args) == 1:
+                sinks.append((n.args[0], 'float arithmetic'))
             elif isinstance(n, ast.BinOp) and isinstance(n.op, ast.Mod) and isinstance(n.left, ast.Constant) and isinstance(n.left.value, str):
                 sinks.append((n.right, '%-format'))
+            elif isinstance(n, ast.BinOp) and isinstance(n.op, (ast.Mult, ast.Div)):
+                def floatish(e: ast.AST) -> bool:
+                    return (isinstance(e, ast.Constant) and isinstance(e.value, float)) or (isinstance(e, ast.Name) and e.id in floats)
+                if floatish(n.left) and not floatish(n.right):
+                    sinks.append((n.right, 'float arithmetic'))
+                elif floatish(n.right) and not floatish(n.left):
+                    sinks.append((n.left, 'float arithmetic'))
         for expr, how in sinks:
             if isinstance(expr, ast.Call) and dotted(expr.func) in SAFE_INT_FORMATTERS:
                 continue
-            direct = isinstance(expr, ast.Name) and expr.id in tainted
+            direct = hot_(expr, tainted) and not isinstance(expr, ast.BinOp)
             # Expr.__str__: the int value of the node itself
             self_value = q == 'Expr.__str__' and norm(expr) == 'self.value' and any(
                 isinstance(i, ast.If) and 'isinstance(self.value, int)' in norm(i.test) and any(expr is y for b in i.body for y in ast.walk(b))
                 for i in ast.walk(fn))
-            arith = isinstance(expr, ast.BinOp) and any(isinstance(x, ast.Name) and x.id in tainted for x in ast.walk(expr))
+            arith = isinstance(expr, ast.BinOp) and hot_(expr, tainted)
+            if isinstance(expr, ast.Attribute) and bounded_in(rel, q, fn, norm(expr)):
+                direct = False
             if direct or self_value or arith:
                 n_sites += 1
-                rep.fail('C14.INT-FORMAT', f'{q}:{how} {norm(expr)[:40]}', f'{norm(expr)[:60]} is an unbounded user integer formatted in decimal '
-                         f'(ValueError above 4300 digits -> generic failure)', f'{rel}:{getattr(expr, "lineno", fn.lineno)} {q}',
-                         expected='hex()/bin()/oct() or the length-safe helper')
+                exc_ = 'OverflowError' if how == 'float arithmetic' else 'ValueError above 4300 digits'
+                rep.fail('C14.INT-FORMAT', f'{q}:{how} {norm(expr)[:40]}', f'{norm(expr)[:60]} is an unbounded user integer that reaches {how} '
+                         f'({exc_} -> generic failure)', f'{rel}:{getattr(expr, "lineno", fn.lineno)} {q}',
+                         expected='hex()/bin()/oct() or the length-safe helper, or a range refusal before it is stored / passed on')
         if tainted:
             rep.ok('C14.INT-FORMAT', f'{q}:tainted {sorted(tainted)}', f'{len(sinks)} formatting sites examined', f'{rel}:{fn.lineno} {q}')
+    rep.notes.append(f'C14.INT-FORMAT: producers beyond the evaluators: {sorted(producers - UNBOUNDED_INT_PRODUCERS)}; tainted fields: {sorted(fields)}')
     # the helper itself falls back instead of raising
     if repo.has_func(EXPR, 'int_to_str'):
         h = repo.func(EXPR, 'int_to_str')
